@@ -138,7 +138,7 @@ func main() {
 		}
 		return bin
 	}
-	raceProps := map[string]bool{"C05": true}
+	raceProps := map[string]bool{"C05": true, "C18": true}
 	wantRace := *race || raceProps[prop]
 	bin := build(false)
 	binRace := ""
